@@ -33,6 +33,9 @@ type c10X struct {
 	// ViaShell: the file is (re)opened by a long-lived Shell under one and the same source name
 	// (History.AddFromFile), and written through the source object the Shell has bound
 	ViaShell bool `json:"via_shell,omitempty"`
+	// HistSize: with ViaShell, the Shell's inputrc sets history-size to this (0 = not set). The variable limits
+	// what a session records; a file that holds more (written by sessions without the limit) is still read in full.
+	HistSize int `json:"hist_size,omitempty"`
 }
 
 func (g *Gen) histFileLine() c10Op {
@@ -98,7 +101,11 @@ func genC10(g *Gen, tier string, idx int) *wire.Scenario {
 		ops = append(ops, c10Op{Op: "write", Line: g.histLine(false)})
 	}
 	ops = append(ops, c10Op{Op: "reopen"})
-	sc.X = mustJSON(c10X{Ops: ops, ViaShell: g.P(30)})
+	xx := c10X{Ops: ops, ViaShell: g.P(30)}
+	if xx.ViaShell && g.P(50) {
+		xx.HistSize = g.Range(1, 4)
+	}
+	sc.X = mustJSON(xx)
 	sc.Plan = wire.Plan{Policy: "canonical", Class: "S0"}
 	return sc
 }
@@ -136,6 +143,11 @@ func execC10(x *Ctx, sc *wire.Scenario) *wire.Result {
 	}
 	var sh *readline.Shell
 	if xx.ViaShell {
+		rc := ""
+		if xx.HistSize > 0 {
+			rc = fmt.Sprintf("set history-size %d\n", xx.HistSize)
+		}
+		os.WriteFile(x.P.Path("inputrc"), []byte(rc), 0o600)
 		sh = readline.NewShell()
 		sh.History.Delete()
 	}
